@@ -260,6 +260,17 @@ def gen_strs(job):
             for suf in (b"?amount=1", b" ", b"\n", b"\r\n", b'"', b"'", b">", b"\x00", b",", b"/"):
                 yield "wrapped address (suffix)", b + suf
             yield "wrapped address (both)", b"bitcoin:" + b + b"?amount=0.1"
+        # valid addresses whose checksum characters also occur earlier in the data part (vf/classes.py): must decode by position
+        from vf.classes import bech32_self_referential, lookalike_substitutions
+        for hrp, v, n in (("bc", 0, 20), ("bc", 0, 32), ("tb", 1, 32), ("bcrt", 16, 40), ("bc", 2, 10)):
+            const = 1 if v == 0 else B.BECH32M_CONST
+            for w, addr in list(bech32_self_referential(hrp, v, n, const, filler(seed, f"c06-self{n}", 40)))[:12]:
+                yield "checksum characters also occur earlier in the data part", addr
+                yield "checksum characters also occur earlier in the data part (upper case)", addr.upper()
+        # one character replaced by a Unicode code point that NFKC / lower() / upper() / casefold() maps to it
+        for b in bases(seed)[1:5] + [bases(seed)[6]]:
+            for _i, _cp, t in lookalike_substitutions(b, per_char=3):
+                yield "Unicode lookalike of one character", t
     elif part == "short":
         yield "empty", b""
         for a in range(256):
